@@ -198,6 +198,9 @@ class CallMixin:
                     nv = self.opaque("mut", self.m.fields[f.value.attr])
                     st.heap[f.value.attr] = T(h.sort, f"(store {h.s} {o.s} {nv.s})")
                     self.note("havoc-mutator", ast.unparse(f), n.lineno)
+            if isinstance(f.value, ast.Name) and f.attr in MUTATORS and isinstance(st.env.get(f.value.id), T) and isinstance(st.env[f.value.id].sort, tuple):
+                st.env[f.value.id] = self.opaque("mut_" + f.value.id, st.env[f.value.id].sort)
+                self.note("havoc-mutator", ast.unparse(f), n.lineno)
         st.ver += 1
         label = ast.unparse(f)
         self.note("opaque-call", label, n.lineno)
@@ -297,7 +300,8 @@ class CallMixin:
         if isinstance(f, ast.Attribute):
             at = f.attr
             if at in ("get", "items", "keys", "values", "startswith", "endswith", "append", "extend", "add", "pop",
-                      "encode", "decode", "join", "format", "copy", "update", "setdefault", "discard", "remove", "clear"):
+                      "encode", "decode", "join", "format", "copy", "update", "setdefault", "discard", "remove", "clear",
+                      "strip", "rstrip", "lstrip", "lower", "upper", "title", "replace", "split", "rsplit", "splitlines"):
                 return self.method_call(n, st, old)
         return None
 
@@ -420,7 +424,11 @@ class CallMixin:
                 if self.store_back(f.value, r, st):
                     return T(NONE, "none")
             if at == "extend" and len(n.args) == 1:
-                x = self.ev(n.args[0], st, old)
+                a0 = n.args[0]
+                if isinstance(a0, ast.GeneratorExp):
+                    a0 = ast.ListComp(elt=a0.elt, generators=a0.generators)
+                    ast.copy_location(a0, n.args[0])
+                x = self.ev(a0, st, old)
                 if isinstance(x, T) and x.sort == s and self.store_back(f.value, T(s, f"(seq.++ {recv.s} {x.s})"), st):
                     return T(NONE, "none")
             if at == "copy":
@@ -430,6 +438,29 @@ class CallMixin:
                 x = self.ev(n.args[0], st, old)
                 if isinstance(x, T) and x.sort == STR:
                     return T(BOOL, f"(str.prefixof {x.s} {recv.s})" if at == "startswith" else f"(str.suffixof {x.s} {recv.s})")
+            if at in ("strip", "rstrip", "lstrip", "lower", "upper", "title", "replace", "split", "rsplit", "splitlines") and all(not isinstance(a, ast.Starred) for a in n.args) and not n.keywords:
+                args = [self.ev(a, st, old) for a in n.args]
+                if all(isinstance(a, T) and a.sort in (STR, INT) for a in args):
+                    ret = ("Seq", STR) if at in ("split", "rsplit", "splitlines") else STR
+                    return c.app(f"str_{at}{len(args)}", [STR] + [a.sort for a in args], ret, [recv] + args)
+            if at == "format" and isinstance(f.value, ast.Constant) and isinstance(f.value.value, str) and not n.args:
+                import string as _string
+                kw = {k.arg: self.ev(k.value, st, old) for k in n.keywords if k.arg}
+                parts = []
+                ok = True
+                for lit, field, spec, conv in _string.Formatter().parse(f.value.value):
+                    if lit:
+                        parts.append(T(STR, smt_str(lit)))
+                    if field is not None:
+                        v = kw.get(field)
+                        if spec or conv or not isinstance(v, T) or v.sort != STR:
+                            ok = False
+                            break
+                        parts.append(v)
+                if ok:
+                    if not parts:
+                        return T(STR, '""')
+                    return T(STR, "(str.++ " + " ".join(p.s for p in parts) + ")") if len(parts) > 1 else parts[0]
             if at in ("encode", "decode"):
                 self.note("A-UTF8", "encode/decode treated as identity on the String sort", n.lineno)
                 return recv
